@@ -10,18 +10,62 @@ PeerAddrsF(c, i) == Counted(6, 4, 7, 256, c, i)
 LocatorF(c, i) == Counted(7, 1, 32, 20, c, i)
 CountedKinds == {PeerAddrsF(0, 0), PeerAddrsF(1, 1), PeerAddrsF(3, 3), PeerAddrsF(256, 256),
                  LocatorF(0, 0), LocatorF(1, 1), LocatorF(20, 20)}
+\* the longest honest PeerAddrs message: MAX_PEER_ADDRS IPv6 entries (1 + 16 + 2 bytes each)
+PeerAddrs6F(c, i) == Counted(6, 4, 19, 256, c, i)
+MaxHonest == {PeerAddrs6F(1, 1), PeerAddrs6F(256, 256)}
 \* n = 0: what `locate_headers` answers when it has nothing newer
 HeadersKinds == {HeadersF(n, n, 0) : n \in {0, 1, 31, 32, 33, 64}}
 EmptyHeaders == HeadersF(0, 0, 0)
+\* headers of different sizes in one list (the proof of work of a header takes edge_bits x proof size
+\* bits: 257, 258, 259 bytes for 10, 11, 12 edge bits here; `next_len` over-reads BHMAX for that reason)
+Mix3 == <<BH, BH + 1, BH + 2>>
+MixedHeaders == {HeadersM(n, n, 0, Mix3) : n \in {1, 2, 3, 33, 64}} \cup {HeadersM(4, 4, 0, <<BH + 2, BH>>)}
+\* a full reply to GetHeaders: MAX_BLOCK_HEADERS headers, 16 batches
+FullHeaders == {HeadersF(512, 512, 0), HeadersM(512, 512, 0, Mix3)}
 ArchiveKinds == {Archive(a) : a \in {0, 1, 47999, 48000, 48001, 96001}}
 UnknownKinds == {Unknown(99, 0), Unknown(99, 1), Unknown(250, 40), Unknown(200, Limit(200))}
+
+\* messages with version-dependent / structured bodies, built by the harness with the node's own
+\* constructors and serialised by `Msg::new` at the version of the connection -----------------
+Versions == {1, 2, 3, 1000}
+Obj(kind, nin, nout, kern, ids, nh, nlv, np) ==
+  [kind |-> kind, nin |-> nin, nout |-> nout, kern |-> kern, ids |-> ids, nh |-> nh, nl |-> nlv, np |-> np]
+\* three single-kernel transactions aggregated: a plain, a height-locked and an NRD kernel
+Tx3 == Obj("tx", 3, 3, <<"plain", "heightlocked", "nrd">>, 0, 0, 0, 0)
+Tx1 == Obj("tx", 1, 1, <<"plain">>, 0, 0, 0, 0)
+\* a block with the coinbase and Tx1 / its compact form (coinbase in full, one short id)
+Block1 == Obj("block", 1, 2, <<"coinbase", "plain">>, 0, 0, 0, 0)
+CBlock1 == Obj("cblock", 0, 1, <<"coinbase">>, 1, 0, 0, 0)
+KSeg == Obj("kseg", 0, 0, <<"plain", "heightlocked", "nrd", "coinbase">>, 0, 1, 4, 2)
+RSeg == Obj("rseg", 0, 0, <<>>, 0, 1, 2, 1)
+OSeg == Obj("oseg", 0, 0, <<>>, 0, 2, 3, 1)
+BuiltAt(v) == {Built(15, Tx3, v), Built(14, Tx3, v), Built(15, Tx1, v), Built(11, Block1, v), Built(13, CBlock1, v),
+               Built(28, KSeg, v), Built(26, RSeg, v), Built(24, OSeg, v)}
+BuiltKinds == UNION {BuiltAt(v) : v \in Versions}
+BuiltSeqs == UNION {{<<Built(15, Tx3, v), Ping, Built(14, Tx3, v)>>, <<Built(11, Block1, v), Built(28, KSeg, v)>>,
+                     <<HeadersF(33, 33, 0), Built(14, Tx1, v), Built(13, CBlock1, v), Ping>>,
+                     <<Built(24, OSeg, v), Built(26, RSeg, v), Unknown(250, 40), Built(15, Tx1, v)>>} : v \in Versions}
 Honest == FixedKinds \cup CountedKinds \cup HeadersKinds \cup ArchiveKinds \cup UnknownKinds
+            \cup MaxHonest \cup MixedHeaders \cup BuiltKinds
 
 \* frames that must be refused ------------------------------------------------
 TAIL == 40   \* bytes following a refused header that must stay unread
 OverLimit == {Raw(t, TRUE, Limit(t) + 1, TAIL, 0, 0) : t \in 0..28} \cup {Raw(99, TRUE, Limit(99) + 1, TAIL, 0, 0)}
 Huge == {Raw(t, TRUE, 1073741824, TAIL, 0, 0) : t \in {3, 9, 11, 17, 99}}
-BadMagic == {Raw(3, FALSE, 16, 16, 16, 0), Raw(9, FALSE, 2 + BH, 2 + BH, 0, 1), Raw(99, FALSE, 8, 8, 0, 0)}
+\* announced lengths over the whole range of the u64 length field (msg.rs compares u64s, codec.rs
+\* casts to usize): representatives beyond TLC's integers, see RawWire
+WireLens == {"2147483648", "4294967296", "4294967312", "9223372036854775807", "9223372036854775808",
+             "18446744073709551615"}
+HugeWire == {RawWire(t, wl, TAIL) : t \in {3, 9, 99}, wl \in WireLens}
+\* the network this node is on ("other": every chain type but Mainnet / Testnet); the two
+\* magic bytes of a frame are those of a network or a corruption of the local ones
+NetName == "other"
+NetMain == "main"
+NetTest == "test"
+MagicKinds == ({"main", "test", "other", "b1", "b2", "b12"}) \ {NetName}
+BadMagic0 == {Raw(3, FALSE, 16, 16, 16, 0), Raw(9, FALSE, 2 + BH, 2 + BH, 0, 1), Raw(99, FALSE, 8, 8, 0, 0)}
+BadMagic == BadMagic0 \cup {RawMagic(3, mv, NetName, 16, 16, 16, 0) : mv \in MagicKinds}
+              \cup {RawMagic(99, "b1", NetName, 8, 8, 0, 0), RawMagic(9, "b1", NetName, 2 + BH, 2 + BH, 0, 1)}
 \* exactly at the limit: not refused on the header
 NeedOf(t) == CASE t \in {3, 4} -> 16 [] t \in {5, 18} -> 4 [] t = 6 -> 4 + 3 * 7 [] t = 7 -> 1 + 32 [] t = 8 -> BH
                [] t \in {10, 12, 19, 20} -> 32 [] t = 16 -> 40 [] t = 17 -> 48 [] t \in {21, 23, 25, 27} -> 41
@@ -38,13 +82,23 @@ BadCount == {HeadersF(2, 1, 0), HeadersF(1, 2, 0), HeadersF(0, 1, 0), HeadersF(1
              PeerAddrsF(1048576, 0), PeerAddrsF(1048576, 1), PeerAddrsF(65536, 3), PeerAddrsF(300, 1),
              LocatorF(255, 1), LocatorF(255, 20), HeadersF(65535, 1, 0), HeadersF(65535, 0, 0), HeadersF(40000, 33, 0),
              Raw(3, TRUE, 15, 15, 16, 0), Raw(10, TRUE, 0, 0, 32, 0)}
+\* a Headers frame of exactly the limit for its type (accepted on its header, then refused for
+\* what follows the zero announced items): pins the limit of type 9 from below
+AtLimit9 == {HeadersF(0, 0, Limit(9) - 2)}
+\* bodies shorter than what the message needs (one byte short, and empty), for every decodable type
+Decodable == {3, 4, 5, 6, 7, 8, 10, 12, 16, 17, 18, 19, 20, 21, 23, 25, 27}
+ShortBody == {Raw(t, TRUE, NeedOf(t) - 1, NeedOf(t) - 1, NeedOf(t), CountOf(t)) : t \in Decodable}
+               \cup {Raw(t, TRUE, 0, 0, NeedOf(t), 0) : t \in Decodable}
 \* decodable body followed by bytes the count does not account for: refused by the statement
 \* (AtLimit frames of the decodable types are of this kind too)
 Trailing == {PeerAddrsF(1, 3), LocatorF(0, 2), Raw(3, TRUE, 20, 20, 16, 0), Raw(17, TRUE, 60, 60, 48, 0)}
                \cup {Raw(t, TRUE, NeedOf(t) + 1, NeedOf(t) + 1, NeedOf(t), CountOf(t)) : t \in {3, 4, 5, 6, 7, 8, 10, 12, 16, 18, 19, 20, 21, 23, 25, 27}}
 \* handshake messages are not accepted once the connection is up
 Unexpected == {Raw(1, TRUE, 60, 60, -1, 0), Raw(2, TRUE, 40, 40, -1, 0), Raw(0, TRUE, 0, 0, -1, 0)}
-Refused == OverLimit \cup Huge \cup BadMagic \cup BadCount \cup Unexpected
+\* (the additions of round 4 follow one lead frame in the quick tier, every lead in the thorough one)
+Refused0 == OverLimit \cup Huge \cup BadMagic0 \cup BadCount \cup Unexpected
+Refused1 == HugeWire \cup (BadMagic \ BadMagic0) \cup ShortBody \cup AtLimit9
+Refused == Refused0 \cup Refused1
 
 AllKinds == Honest \cup Refused \cup AtLimit \cup Trailing
 \* small alphabets for the longer streams
@@ -54,7 +108,8 @@ Lead == {Ping, HeadersF(33, 33, 0), Archive(1), Unknown(99, 1), EmptyHeaders}
 SeqsOf(K, n) == [1..n -> K]
 Singles == SeqsOf(AllKinds, 1)
 Pairs == SeqsOf(Honest, 2)
-AfterLead == {<<a, b>> : a \in Lead, b \in Refused \cup AtLimit \cup Trailing}
+AfterLead == {<<a, b>> : a \in Lead, b \in Refused0 \cup AtLimit \cup Trailing} \cup {<<Ping, b>> : b \in Refused1}
+AfterLeadFull == {<<a, b>> : a \in Lead, b \in Refused \cup AtLimit \cup Trailing}
 Deep == SeqsOf(Core, 3) \cup SeqsOf(Core, 4)
 Deep3 == SeqsOf(Core, 3)
 
@@ -71,8 +126,23 @@ MidRefusal == {<<b>> \o t : b \in RefusedMid, t \in Tails}
                  \cup {<<a, b>> \o t : a \in {Ping, HeadersF(33, 33, 0), Unknown(99, 1)}, b \in RefusedMid, t \in {<<Ping>>}}
 AroundEmpty == {<<EmptyHeaders, b>> : b \in Honest} \cup {<<a, EmptyHeaders>> : a \in Honest}
                   \cup {<<Ping, EmptyHeaders, Ping>>, <<EmptyHeaders, EmptyHeaders, HeadersF(33, 33, 0)>>}
+FullSeqs == {<<f>> : f \in FullHeaders} \cup {<<HeadersM(512, 512, 0, Mix3), Ping>>}
+\* (thorough) a Headers frame of exactly the limit filled with headers: 2908 items and 170 bytes more
+AtLimitHeaders == {<<HeadersF(2908, 2908, Limit(9) - 2 - 2908 * BH)>>}
 StreamsQuick == Singles \cup AfterLead \cup SeqsOf(Core, 2) \cup Deep3 \cup AroundEmpty \cup MidRefusal
-StreamsFull == Singles \cup Pairs \cup AfterLead \cup Deep \cup AroundEmpty \cup MidRefusal
+                  \cup BuiltSeqs \cup FullSeqs
+StreamsFull == Singles \cup Pairs \cup AfterLeadFull \cup Deep \cup AroundEmpty \cup MidRefusal
+                  \cup BuiltSeqs \cup FullSeqs \cup AtLimitHeaders
+\* another network (MC_Codec_net_*.cfg: NetName, MaxBlockSize of that chain type; no block headers:
+\* their proof of work cannot be produced there)
+NetFrames == {Ping, Fixed(5, 4), PeerAddrsF(3, 3), Unknown(99, 1)}
+StreamsNet == {<<a>> : a \in NetFrames} \cup {<<Ping, b, Ping>> : b \in {RawMagic(3, mv, NetName, 16, 16, 16, 0) : mv \in MagicKinds}}
+                \cup {<<RawMagic(3, mv, NetName, 16, 16, 16, 0)>> : mv \in MagicKinds}
+                \cup {<<Ping, Raw(t, TRUE, Limit(t) + 1, TAIL, 0, 0)>> : t \in {3, 11, 13, 15, 22, 99}}
+                \cup {<<Raw(11, TRUE, Limit(11), Limit(11), -1, 0)>>, <<Unknown(200, Limit(200)), Ping>>}
+\* probe (MC_Codec_probe_version.cfg, VersionSkew = 1000): a reader that decodes with its own
+\* protocol version instead of the negotiated one - Faithful is expected to FAIL
+StreamsVersionProbe == {<<Built(15, Tx3, 1)>>}
 \* probe (MC_Codec_probe_hoist.cfg, TimeoutPerChunk = FALSE): the model must tell the two
 \* placements of set_stream_timeout apart (NoDesync is expected to FAIL there)
 StreamsProbe == {<<Ping, Ping>>}
@@ -89,6 +159,7 @@ StartsOf(s, i) == IF i > Len(s) THEN <<>> ELSE <<StartOf(s, i)>> \o StartsOf(s, 
 \* header timeout (Silence); the harness places its 2.3-2.6 s pauses there and at offsets that
 \* satisfy the same predicate
 Case(s) == [frames |-> s, expect |-> ExpectedSeq(s), total |-> Total(s), starts |-> StartsOf(s, 1),
+            version |-> WriterVersion(s), net |-> NetName,
             classes |-> [i \in 1..Len(s) |-> FrameClass(s[i])],
             silent |-> {c \in Cuts(s) : SilenceOK(s, c)},
             kinds |-> [i \in 1..Len(s) |-> RefusalKind(s[i])],
